@@ -155,8 +155,12 @@ struct ExprGen {
   const ExprNode& konst(int rows, int cols) {
     auto itv = [&]() { double c = small_const(); return (cfg.thick_consts && r.coin(30)) ? Interval(c, c + r.range(1, 4) / 8.0) : Interval(c); };
     if (rows == 1 && cols == 1) return ExprConstant::new_scalar(itv());
-    if (rows == 1 || cols == 1) { int n = rows * cols; IntervalVector v(n); for (int i = 0; i < n; i++) v[i] = itv(); return ExprConstant::new_vector(v, rows == 1); }
-    IntervalMatrix m(rows, cols); for (int i = 0; i < rows; i++) for (int j = 0; j < cols; j++) m[i][j] = itv(); return ExprConstant::new_matrix(m);
+    // 0/1 patterns (selection vectors, several ones, identity-like matrices): special cases of the simplifier
+    bool zo = r.coin(25);
+    if (rows == 1 || cols == 1) { int n = rows * cols; IntervalVector v(n); for (int i = 0; i < n; i++) v[i] = zo ? Interval(r.coin() ? 1.0 : 0.0) : itv(); return ExprConstant::new_vector(v, rows == 1); }
+    IntervalMatrix m(rows, cols); bool ident = zo && r.coin();
+    for (int i = 0; i < rows; i++) for (int j = 0; j < cols; j++) m[i][j] = zo ? Interval(ident ? (i == j ? 1.0 : 0.0) : (r.coin(40) ? 1.0 : 0.0)) : itv();
+    return ExprConstant::new_matrix(m);
   }
   // a leaf or shared sub-expression of the requested dimension
   const ExprNode& leaf(int rows, int cols) {
@@ -242,6 +246,66 @@ struct ExprGen {
       default: { // rows of row vectors stacked in a column, or columns side by side
         if (r.coin()) { Array<const ExprNode> a(rows); for (int i = 0; i < rows; i++) a.set_ref(i, gen(1, cols, depth - 1)); return ExprVector::new_(a, ExprVector::COL); }
         else { Array<const ExprNode> a(cols); for (int j = 0; j < cols; j++) a.set_ref(j, gen(rows, 1, depth - 1)); return ExprVector::new_(a, ExprVector::ROW); } }
+    }
+  }
+};
+
+
+// symbolic linear algebra over vector / matrix SYMBOLS (no ExprVector literal): differences, sums, products,
+// transpositions, scalings, components -- the patterns of the simplifier's and differentiator's matrix rules
+struct LinAlgGen {
+  Rng& r; int n;                       // dimension of the vectors (2..3)
+  std::vector<const ExprSymbol*> cols, rows, mats, scals;
+  bool consts;                         // constant vectors / matrices allowed (0/1 patterns included)
+  bool outer;                          // outer products column*row (the numeric layer of the library cannot evaluate them)
+  LinAlgGen(Rng& rr, int n_) : r(rr), n(n_), consts(true), outer(true) {}
+  const ExprNode& kvec(bool row) { IntervalVector v(n); bool zo = r.coin(60); for (int i = 0; i < n; i++) v[i] = zo ? (r.coin() ? 1.0 : 0.0) : r.range(-4, 4) / 2.0; return ExprConstant::new_vector(v, row); }
+  const ExprNode& kmat() { IntervalMatrix m(n, n); bool zo = r.coin(60); for (int i = 0; i < n; i++) for (int j = 0; j < n; j++) m[i][j] = zo ? (r.coin(40) ? 1.0 : 0.0) : r.range(-4, 4) / 2.0; return ExprConstant::new_matrix(m); }
+  const ExprNode& scal(int d) {
+    if (d <= 0 || r.coin(20)) { if (!scals.empty() && r.coin(70)) return *scals[r.below(scals.size())]; return ExprConstant::new_scalar(r.range(-4, 4) / 2.0); }
+    switch (r.below(6)) {
+      case 0: return row(d - 1) * col(d - 1);
+      case 1: return col(d - 1)[(int)r.below(n)];
+      case 2: return row(d - 1)[(int)r.below(n)];
+      case 3: return mat(d - 1)[(int)r.below(n)][(int)r.below(n)];
+      case 4: return scal(d - 1) * scal(d - 1);
+      default: return scal(d - 1) - scal(d - 1);
+    }
+  }
+  const ExprNode& col(int d) {
+    if (d <= 0 || r.coin(20)) { if (!cols.empty() && r.coin(80)) return *cols[r.below(cols.size())]; if (consts) return kvec(false); return *cols[0]; }
+    switch (r.below(7)) {
+      case 0: return col(d - 1) - col(d - 1);
+      case 1: return col(d - 1) + col(d - 1);
+      case 2: return mat(d - 1) * col(d - 1);
+      case 3: return scal(d - 1) * col(d - 1);
+      case 4: return transpose(row(d - 1));
+      case 5: return -col(d - 1);
+      default: return col(d - 1) - mat(d - 1) * col(d - 1);
+    }
+  }
+  const ExprNode& row(int d) {
+    if (d <= 0 || r.coin(20)) { if (!rows.empty() && r.coin(80)) return *rows[r.below(rows.size())]; if (consts && r.coin()) return kvec(true); return transpose(col(0)); }
+    switch (r.below(6)) {
+      case 0: return row(d - 1) - row(d - 1);
+      case 1: return row(d - 1) + row(d - 1);
+      case 2: return row(d - 1) * mat(d - 1);
+      case 3: return scal(d - 1) * row(d - 1);
+      case 4: return transpose(col(d - 1));
+      default: return -row(d - 1);
+    }
+  }
+  const ExprNode& mat(int d) {
+    if (d <= 0 || r.coin(25)) { if (!mats.empty() && r.coin(80)) return *mats[r.below(mats.size())]; if (consts) return kmat(); return *mats[0]; }
+    switch (r.below(7)) {
+      case 0: return mat(d - 1) - mat(d - 1);
+      case 1: return mat(d - 1) + mat(d - 1);
+      case 2: return mat(d - 1) * mat(d - 1);
+      case 3: return transpose(mat(d - 1));
+      case 4: return scal(d - 1) * mat(d - 1);
+      case 5: if (outer) return col(d - 1) * row(d - 1);        // outer product
+              return mat(d - 1) + mat(d - 1);
+      default: return -mat(d - 1);
     }
   }
 };
